@@ -127,31 +127,36 @@ def hIncomingCalls (st : Index) (f : Path) (name : String) : Option (List (Strin
       ((st.containingFunction u.file u.line).getD "<unknown>",
        spanLoc u.file (toLsp u.line) u.startChar u.endChar))), st)
 
-/-- `find_parameter_ranges`: FIRST textual occurrence of the name on the definition's line. -/
-def parameterRange (st : Index) (f : Path) (line : Nat) (param : String) : Option Loc :=
-  match alookup st.cache f with
+/-- `find_parameter_ranges`: the first recorded usage of that name inside the definition's lines
+    (its exact span; the original code searched the text of the `def` line for the name, which
+    also hit the function's own name and missed wrapped signatures). -/
+def parameterRange (st : Index) (f : Path) (line endLine : Nat) (param : String) : Option Loc :=
+  match alookup st.usages f with
   | none => none
-  | some v =>
-    match (linesOf v.text.toList)[line - 1]? with
+  | some us =>
+    match us.find? (fun u => line ≤ u.line && u.line ≤ endLine && u.name == param) with
+    | some u => some (spanLoc f (toLsp u.line) u.startChar u.endChar)
     | none => none
-    | some lc =>
-      match bfind param.toList lc with
-      | some s => some (spanLoc f (toLsp line) s (s + param.utf8ByteSize))
-      | none => none
 
-/-- `callHierarchy/outgoingCalls`: every dependency, resolved by `resolve_fixture_for_file`. -/
-def hOutgoingCalls (st : Index) (f : Path) (name : String) : Option (List (CallItem × Loc)) :=
+/-- `callHierarchy/outgoingCalls`: every dependency, resolved by `resolve_fixture_for_file` — except
+    the fixture's own name (an override requesting its parent), which is resolved like the usage on
+    its signature: `find_closest_definition_excluding` the fixture itself. -/
+def hOutgoingCalls (st : Index) (f : Path) (name : String) : Option (List (CallItem × Loc)) × Index :=
   match (defsOf st.defs name).find? (fun d => d.file == f) with
-  | none => none
+  | none => (none, st)
   | some d =>
-    some (d.deps.filterMap (fun dep =>
-      match resolveForFile st.defs f dep with
-      | none => none
+    let (items, st) := d.deps.foldl (fun (acc : List (CallItem × Loc) × Index) dep =>
+      let (r, st') :=
+        if dep == d.name then resolveFM acc.2.defs impM f dep (fun x => x != d) acc.2
+        else (resolveForFile acc.2.defs f dep, acc.2)
+      match r with
+      | none => (acc.1, st')
       | some dd =>
         let sel := spanLoc dd.file (toLsp dd.line) dd.startChar dd.endChar
-        some ({ name := dd.name, range := pointLoc dd.file (toLsp dd.line), selection := sel,
-                detail := fixtureDetail dd },
-              (st.parameterRange f d.line dep).getD sel)))
+        (acc.1 ++ [({ name := dd.name, range := pointLoc dd.file (toLsp dd.line), selection := sel,
+                      detail := fixtureDetail dd },
+                    (st'.parameterRange f d.line d.endLine dep).getD sel)], st')) ([], st)
+    (some items, st)
 
 /-- `textDocument/inlayHint` over internal lines `[startLine, endLine]`. -/
 def hInlayHints (st : Index) (f : Path) (startLine endLine : Nat) :
@@ -164,15 +169,23 @@ def hInlayHints (st : Index) (f : Path) (startLine endLine : Nat) :
       | none => []
     let (avail, st) := st.availableSt f
     let typed := avail.filterMap (fun d => d.returnType.map (fun rt => (d.name, rt)))
-    if typed.isEmpty then (some [], st) else
     -- `HashMap::collect`: a later entry of the same name overrides an earlier one
     let lookup (n : String) : Option String := (typed.reverse.find? (·.1 == n)).map (·.2)
-    let res := (usages.filter (fun u => startLine ≤ u.line && u.line ≤ endLine)).filterMap (fun u =>
-      match lookup u.name with
-      | none => none
-      | some rt =>
-        if parameterHasAnnotation lines u.line u.endChar then none
-        else some (toLsp u.line, u.endChar, ": " ++ rt))
+    let (res, st) := (usages.filter (fun u => startLine ≤ u.line && u.line ≤ endLine)).foldl
+      (fun (acc : List (Nat × Nat × String) × Index) u =>
+        -- a fixture requesting its own name: the type of the definition it overrides
+        -- (`get_definition_at_line`, then `find_closest_definition_excluding`)
+        let (rt, st') :=
+          match (defsOf acc.2.defs u.name).find? (fun d => d.file == f && d.line == u.line) with
+          | some own =>
+            let (r, st') := resolveFM acc.2.defs impM f u.name (fun x => x != own) acc.2
+            (r.bind (·.returnType), st')
+          | none => (lookup u.name, acc.2)
+        match rt with
+        | none => (acc.1, st')
+        | some rt =>
+          if parameterHasAnnotation lines u.line u.endChar then (acc.1, st')
+          else (acc.1 ++ [(toLsp u.line, u.endChar, ": " ++ rt)], st')) ([], st)
     (some res, st)
 
 structure Diag where
